@@ -36,12 +36,26 @@ pub struct Activity {
 
 impl Activity {
     pub fn busy(&self) -> bool {
-        self.sent != self.done || self.reader_plus != self.reader_minus
+        self.sent != self.done || self.reader_plus > self.reader_minus
     }
 }
 
 pub fn activity() -> Activity {
     Activity { sent: SENT.load(Ordering::SeqCst), done: DONE.load(Ordering::SeqCst), reader_plus: READER_PLUS.load(Ordering::SeqCst), reader_minus: READER_MINUS.load(Ordering::SeqCst) }
+}
+
+/// After a database was shut down (its Shutdown message is dequeued without having been counted
+/// as sent): everything outstanding is finished, start counting afresh.
+pub fn rebaseline() {
+    SENT.store(DONE.load(Ordering::SeqCst).max(SENT.load(Ordering::SeqCst)), Ordering::SeqCst);
+    DONE.store(SENT.load(Ordering::SeqCst), Ordering::SeqCst);
+    // reader jobs are always paired; give stragglers of the closed database a moment, then resync
+    let start = std::time::Instant::now();
+    while READER_PLUS.load(Ordering::SeqCst) != READER_MINUS.load(Ordering::SeqCst) && start.elapsed().as_millis() < 200 {
+        std::thread::yield_now();
+    }
+    READER_MINUS.store(READER_PLUS.load(Ordering::SeqCst), Ordering::SeqCst);
+    DEQUEUED.lock().unwrap().clear();
 }
 
 pub fn reset_activity() {
